@@ -81,6 +81,20 @@ def sweep_cases(ctx):
                           {"put": [{"path": "leaf.yaml", "text": json.dumps(dict(leaf1, keyAlgorithm="RSA-1024"))}], "flags": ["m", "c"]},
                           {"put": [{"path": "ca.yaml", "text": json.dumps(dict(ca, subject="CN=Req CA G2"))}], "flags": ["m", "c"]}]
             out.append(c)
+    # a private key and a request in one file (the request for another key, or for the same one; either block first): "the file holds
+    # a PKCS#8 private key" - the certificate carries ITS public key, the key stays (what becomes of the request is not stated)
+    for k in (["P-256", "RSA-1024"] if ctx.quick else ["P-224", "P-256", "P-384", "P-521", "RSA-1024", "RSA-2048"]):
+        for variant in ("other", "same", "other request-first", "same request-first"):
+            for role in ("leaf", "issuer"):
+                ca = cfg("CN=KR CA", keyAlgorithm=k, signatureAlgorithm=sig_for(k))
+                leaf = cfg("CN=KR Holder v0", issuer="ca", keyAlgorithm=k, signatureAlgorithm=sig_for(k))
+                who, path = ("leaf", "leaf.pem") if role == "leaf" else ("ca", "ca.pem")
+                c = case(len(out) + 1, [("ca.yaml", ca), ("leaf.yaml", leaf)],
+                         tag={"prop": "C14", "class": "key and request (%s) in one file, %s %s" % (variant, role, k), "firstMustSucceed": False})
+                c["files"].append({"path": path, "make": {"kind": "key+csr", "key": k, "cn": "KR", "variant": variant}})
+                c["steps"] = [{"flags": ["m", "c"]}, {"put": [{"path": "leaf.yaml", "text": json.dumps(dict(leaf, subject="CN=KR Holder v1"))}], "flags": ["c"]}, {"flags": ["a"]},
+                              {"put": [{"path": "ca.yaml", "text": json.dumps(dict(ca, subject="CN=KR CA G2"))}], "flags": ["m", "c"]}]
+                out.append(c)
     # a PKCS#8 key of an algorithm gopki cannot use (Ed25519): it is the user's key all the same - whatever the run does
     # (fail, most likely), the key stays in the file
     for flags in (["m", "c"], ["a"]):
